@@ -47,65 +47,52 @@ example :
     = [.wrote 1, .wrote 2, .wrote 3, .wrote 1, .data [3,3,3], .data [4], .err .etimedout] := by
   decide +kernel
 
-/-! ### the writer, on the overwrite FIFO -/
+/-! ### the writer, on the overwrite FIFO
 
-theorem free_le (f : Fifo) : f.free ≤ 4 * f.W := by
-  obtain ⟨W, q, sem⟩ := f
-  unfold Fifo.free
+In overwrite mode the writer's free-space rule does not look at the notification count
+(`qb_rb_space_free` since the repair of D31b), so everything below holds for every value of
+`f.sem`: with and without the semaphore flag. -/
+
+theorem owFree_nil (W : Nat) : owFree W [] = 4 * W := rfl
+
+theorem owFree_cons (W : Nat) (c : List Nat) (cs : List (List Nat)) :
+    owFree W (c :: cs) = 4 * (W - total (c :: cs) - 1) := rfl
+
+theorem owFree_le (W : Nat) (q : List (List Nat)) : owFree W q ≤ 4 * W := by
   cases q with
-  | nil => cases sem with
-    | none => simp
-    | some n => cases n <;> simp
-  | cons c cs => simp only; omega
+  | nil => exact Nat.le_refl _
+  | cons c cs => rw [owFree_cons]; omega
 
-theorem owDrop_true (W S len : Nat) (q : List (List Nat)) (sem : Option Nat) (hS : S + MARGIN + 1 ≤ 4 * W)
-    (hlen : len ≤ S) (hsem : ∀ n, sem = some n → n ≤ q.length) : (owDrop W len q sem).2.2 = true := by
-  induction q generalizing sem with
+theorem owDrop_true (W S len : Nat) (q : List (List Nat)) (hS : S + MARGIN + 1 ≤ 4 * W)
+    (hlen : len ≤ S) : (owDrop W len q).2 = true := by
+  induction q with
   | nil =>
-    rw [owDrop_nil]
-    have : ¬ Fifo.free ⟨W, [], sem⟩ < len + MARGIN := by
-      unfold Fifo.free
-      cases sem with
-      | none => simp only; omega
-      | some n =>
-        have : n ≤ 0 := hsem n rfl
-        cases n with
-        | zero => simp only; omega
-        | succ n => omega
+    rw [owDrop_nil, owFree_nil]
+    have : ¬ 4 * W < len + MARGIN := by omega
     simp [this]
   | cons c cs ih =>
-    by_cases hc : Fifo.free ⟨W, c :: cs, sem⟩ < len + MARGIN
-    · rw [owDrop_cons_drop _ _ _ _ _ hc]
-      apply ih
-      intro n hn
-      cases sem with
-      | none => simp at hn
-      | some m =>
-        have := hsem m rfl
-        simp only [Option.map_some, Option.some.injEq, List.length_cons] at hn this
-        omega
-    · rw [owDrop_cons_stop _ _ _ _ _ hc]
+    by_cases hc : owFree W (c :: cs) < len + MARGIN
+    · rw [owDrop_cons_drop _ _ _ _ hc]; exact ih
+    · rw [owDrop_cons_stop _ _ _ _ hc]
 
 /-- the outcome of a write on the overwrite FIFO, in terms of `owDrop` -/
 theorem owStep_write (f : Fifo) (d : List Nat) :
     f.owStep (.write d) =
-      if (owDrop f.W d.length f.q f.sem).2.2 then
-        (⟨f.W, (owDrop f.W d.length f.q f.sem).1 ++ [d], (owDrop f.W d.length f.q f.sem).2.1.map (· + 1)⟩, .wrote d.length)
-      else (⟨f.W, (owDrop f.W d.length f.q f.sem).1, (owDrop f.W d.length f.q f.sem).2.1⟩, .err .einval) := by
+      if (owDrop f.W d.length f.q).2 then
+        (⟨f.W, (owDrop f.W d.length f.q).1 ++ [d], f.sem.map (· + 1)⟩, .wrote d.length)
+      else (⟨f.W, (owDrop f.W d.length f.q).1, f.sem⟩, .err .einval) := by
   simp only [Fifo.owStep]
-  rcases owDrop f.W d.length f.q f.sem with ⟨q', sem', ok⟩
+  rcases owDrop f.W d.length f.q with ⟨q', ok⟩
   cases ok <;> simp [Fifo.post]
 
-/-- **Every write of at most the requested size succeeds** (overwrite FIFO; `SemOk`: the
-    notification count does not exceed the number of queued chunks — an invariant of every
-    history that uses `reclaim` only after `peek`, see `semok_run`; without a semaphore it
-    holds trivially). -/
+/-- **Every write of at most the requested size succeeds** (overwrite FIFO, any queue contents,
+    any notification count / no semaphore). -/
 theorem ow_write_succeeds (f : Fifo) (S : Nat) (d : List Nat) (hS : S + MARGIN + 1 ≤ 4 * f.W)
-    (hsem : f.SemOk) (hd : d.length ≤ S) : (f.owStep (.write d)).2 = .wrote d.length := by
-  rw [owStep_write, if_pos (owDrop_true f.W S d.length f.q f.sem hS hd hsem)]
+    (hd : d.length ≤ S) : (f.owStep (.write d)).2 = .wrote d.length := by
+  rw [owStep_write, if_pos (owDrop_true f.W S d.length f.q hS hd)]
 
-example : (Fifo.owStep ⟨8, [[1,2,3], [4,5,6,7,8]], some 2⟩ (.write (List.replicate 19 9))).2 = .wrote 19 :=
-  ow_write_succeeds ⟨8, [[1,2,3], [4,5,6,7,8]], some 2⟩ 19 _ (by decide) (by intro n h; cases h; decide) (by decide)
+example : (Fifo.owStep ⟨8, [[1,2,3], [4,5,6,7,8]], some 7⟩ (.write (List.replicate 19 9))).2 = .wrote 19 :=
+  ow_write_succeeds ⟨8, [[1,2,3], [4,5,6,7,8]], some 7⟩ 19 _ (by decide) (by decide)
 
 /-- **The contents after a write are a suffix of the old contents plus the new chunk**: exactly
     the `k` oldest chunks are gone, where `k` is the least number of drops after which the
@@ -113,15 +100,15 @@ example : (Fifo.owStep ⟨8, [[1,2,3], [4,5,6,7,8]], some 2⟩ (.write (List.rep
     new chunk is readable (`k ≥ 1` chunks after the first write). -/
 theorem ow_contents_suffix (f : Fifo) (d : List Nat) (h : (f.owStep (.write d)).2 = .wrote d.length) :
     ∃ k, k ≤ f.q.length ∧ (f.owStep (.write d)).1.q = f.q.drop k ++ [d] ∧
-      (∀ j, j < k → Fifo.free ⟨f.W, f.q.drop j, f.sem.map (· - j)⟩ < d.length + MARGIN) ∧
-      ¬ Fifo.free ⟨f.W, f.q.drop k, f.sem.map (· - k)⟩ < d.length + MARGIN := by
-  obtain ⟨k, hk, h1, h2, h3, h4⟩ := owDrop_spec f.W d.length f.q f.sem
+      (∀ j, j < k → owFree f.W (f.q.drop j) < d.length + MARGIN) ∧
+      ¬ owFree f.W (f.q.drop k) < d.length + MARGIN := by
+  obtain ⟨k, hk, h1, h3, _⟩ := owDrop_spec f.W d.length f.q
   rw [owStep_write] at h ⊢
-  by_cases hok : (owDrop f.W d.length f.q f.sem).2.2 = true
+  by_cases hok : (owDrop f.W d.length f.q).2 = true
   · rw [if_pos hok]
     refine ⟨k, hk, by simp only [h1], h3, ?_⟩
     have := owDrop_ok hok
-    rw [h1, h2] at this
+    rw [h1] at this
     exact this
   · rw [if_neg hok] at h
     simp at h
@@ -131,25 +118,30 @@ example : ∃ k, (Fifo.owStep ⟨8, [[1,2,3], [4,5,6,7,8]], none⟩ (.write [9])
   let ⟨k, _, h, _⟩ := ow_contents_suffix ⟨8, [[1,2,3], [4,5,6,7,8]], none⟩ [9] (by decide)
   ⟨k, h⟩
 
+/-- after a successful write the newest chunk is the last one readable (so `k ≥ 1`) -/
+theorem ow_last_is_newest (f : Fifo) (d : List Nat) (h : (f.owStep (.write d)).2 = .wrote d.length) :
+    (f.owStep (.write d)).1.q.getLast? = some d := by
+  obtain ⟨k, _, hq, _⟩ := ow_contents_suffix f d h
+  rw [hq]; simp
+
 /-- a suffix of `q` that fits by the 16-byte accounting is never dropped -/
-theorem fits_no_drop (W S len : Nat) (c : List Nat) (cs : List (List Nat)) (sem : Option Nat)
+theorem fits_no_drop (W S len : Nat) (c : List Nat) (cs : List (List Nat))
     (hS : S + MARGIN + 1 ≤ 4 * W)
     (hfit : ((c :: cs).map (fun c => c.length + 16)).sum + (len + 16) ≤ S) :
-    ¬ Fifo.free ⟨W, c :: cs, sem⟩ < len + MARGIN := by
+    ¬ owFree W (c :: cs) < len + MARGIN := by
   have hm := MARGIN_eq
   have hq := total_le_sum16 (c :: cs)
-  unfold Fifo.free
-  simp only at hq hfit ⊢
+  rw [owFree_cons]
   omega
 
 /-- **Everything that fits is kept.** After a write of at most `S` bytes, every run of newest
     chunks (a suffix of the old contents followed by the new chunk) that fits into the
     requested size `S`, each chunk counted with 16 bytes of overhead, is still there. -/
 theorem ow_keeps_all_that_fit (f : Fifo) (S : Nat) (d : List Nat) (hS : S + MARGIN + 1 ≤ 4 * f.W)
-    (hsem : f.SemOk) (hd : d.length ≤ S) (s : List (List Nat)) (hs : s <:+ f.q ++ [d])
+    (hd : d.length ≤ S) (s : List (List Nat)) (hs : s <:+ f.q ++ [d])
     (hfit : (s.map (fun c => c.length + 16)).sum ≤ S) :
     s <:+ (f.owStep (.write d)).1.q := by
-  obtain ⟨k, hk, hq, hmin, _⟩ := ow_contents_suffix f d (ow_write_succeeds f S d hS hsem hd)
+  obtain ⟨k, hk, hq, hmin, _⟩ := ow_contents_suffix f d (ow_write_succeeds f S d hS hd)
   rw [hq]
   -- s is a suffix of q ++ [d]: either empty or s' ++ [d] with s' a suffix of q
   rcases List.eq_nil_or_concat s with rfl | ⟨s', x, rfl⟩
@@ -182,233 +174,59 @@ theorem ow_keeps_all_that_fit (f : Fifo) (S : Nat) (d : List Nat) (hS : S + MARG
         have := congrArg List.length ht; simp at this; omega
       omega
     | cons c cs =>
-      refine fits_no_drop f.W S x.length c cs _ hS ?_ hfree
+      refine fits_no_drop f.W S x.length c cs hS ?_ hfree
       simp only [List.map_append, List.sum_append, List.map_cons, List.sum_cons, List.map_nil, List.sum_nil] at hfit ⊢
       omega
 
 /-- non-vacuity: W = 13 (52 bytes, S = 38); the write drops the oldest chunk, the two newest
     old chunks do not both fit with the new one by the 16-byte accounting, the newest does -/
 example : [[4,5,6,7,8], [9]] <:+
-    (Fifo.owStep ⟨13, [[0,0,0,0,0,0,0,0], [1,2,3], [4,5,6,7,8]], none⟩ (.write [9])).1.q :=
-  ow_keeps_all_that_fit ⟨13, [[0,0,0,0,0,0,0,0], [1,2,3], [4,5,6,7,8]], none⟩ 38 [9] (by decide)
-    (by intro n h; cases h) (by decide) _ ⟨[[0,0,0,0,0,0,0,0], [1,2,3]], rfl⟩ (by decide)
+    (Fifo.owStep ⟨13, [[0,0,0,0,0,0,0,0], [1,2,3], [4,5,6,7,8]], some 9⟩ (.write [9])).1.q :=
+  ow_keeps_all_that_fit ⟨13, [[0,0,0,0,0,0,0,0], [1,2,3], [4,5,6,7,8]], some 9⟩ 38 [9] (by decide)
+    (by decide) _ ⟨[[0,0,0,0,0,0,0,0], [1,2,3]], rfl⟩ (by decide)
 
 example : (Fifo.owStep ⟨13, [[0,0,0,0,0,0,0,0], [1,2,3], [4,5,6,7,8]], none⟩ (.write [9])).1.q
     = [[1,2,3], [4,5,6,7,8], [9]] := by decide
 
-theorem owDrop_oversize (W len : Nat) (q : List (List Nat)) (sem : Option Nat) (hbig : 4 * W < len + MARGIN) :
-    owDrop W len q sem = ([], sem.map (· - q.length), false) := by
-  induction q generalizing sem with
+theorem owDrop_oversize (W len : Nat) (q : List (List Nat)) (hbig : 4 * W < len + MARGIN) :
+    owDrop W len q = ([], false) := by
+  induction q with
   | nil =>
     rw [owDrop_nil]
-    have : Fifo.free ⟨W, [], sem⟩ < len + MARGIN := Nat.lt_of_le_of_lt (free_le _) hbig
-    cases sem <;> simp [this]
+    have : owFree W [] < len + MARGIN := Nat.lt_of_le_of_lt (owFree_le _ _) hbig
+    simp [this]
   | cons c cs ih =>
-    have : Fifo.free ⟨W, c :: cs, sem⟩ < len + MARGIN := Nat.lt_of_le_of_lt (free_le _) hbig
-    rw [owDrop_cons_drop _ _ _ _ _ this, ih]
-    cases sem <;> simp [Nat.sub_sub, Nat.add_comm]
+    have : owFree W (c :: cs) < len + MARGIN := Nat.lt_of_le_of_lt (owFree_le _ _) hbig
+    rw [owDrop_cons_drop _ _ _ _ this, ih]
 
 /-- **A chunk larger than the whole ring fails with EINVAL — after the reclaim loop has emptied
     the ring.**  The failure is clean in the sense that nothing is corrupted (the result is a
-    well-formed empty ring: `ow_history` / `ow_reachable_inv` cover it) but the old contents are
-    discarded: `qb_rb_chunk_alloc` reclaims until nothing is left before it gives up. -/
+    well-formed empty ring with an unchanged notification count: `ow_history` /
+    `ow_reachable_inv` cover it, and by `ow_write_succeeds_ring` the next write of at most `S`
+    bytes succeeds) but the old contents are discarded: `qb_rb_chunk_alloc` reclaims until
+    nothing is left before it gives up. -/
 theorem ow_oversize_fails_cleanly (f : Fifo) (d : List Nat) (hbig : 4 * f.W < d.length + MARGIN) :
-    f.owStep (.write d) = (⟨f.W, [], f.sem.map (· - f.q.length)⟩, .err .einval) := by
-  rw [owStep_write, owDrop_oversize f.W d.length f.q f.sem hbig]
+    f.owStep (.write d) = (⟨f.W, [], f.sem⟩, .err .einval) := by
+  rw [owStep_write, owDrop_oversize f.W d.length f.q hbig]
   simp
 
 example : Fifo.owStep ⟨8, [[1,2,3], [4,5,6,7,8]], some 2⟩ (.write (List.replicate 21 0))
-    = (⟨8, [], some 0⟩, .err .einval) :=
+    = (⟨8, [], some 2⟩, .err .einval) :=
   ow_oversize_fails_cleanly _ _ (by decide)
 
-/-! ### the notification count along histories -/
-
-theorem semok_owDrop (W len : Nat) (q : List (List Nat)) (sem : Option Nat)
-    (h : ∀ n, sem = some n → n ≤ q.length) :
-    ∀ n, (owDrop W len q sem).2.1 = some n → n ≤ (owDrop W len q sem).1.length := by
-  obtain ⟨k, hk, h1, h2, _, _⟩ := owDrop_spec W len q sem
-  intro n hn
-  rw [h2] at hn
-  rw [h1, List.length_drop]
-  cases sem with
-  | none => simp at hn
-  | some m =>
-    have := h m rfl
-    simp only [Option.map_some, Option.some.injEq] at hn
-    omega
-
-theorem tryWait_q (f f1 : Fifo) (h : f.tryWait = some f1) :
-    f1.q = f.q ∧ f1.W = f.W ∧ ((f.sem = none ∧ f1.sem = none) ∨ ∃ n, f.sem = some (n + 1) ∧ f1.sem = some n) := by
-  obtain ⟨W, q, sem⟩ := f
-  unfold Fifo.tryWait at h
-  cases sem with
-  | none => simp only [Option.some.injEq] at h; subst h; exact ⟨rfl, rfl, Or.inl ⟨rfl, rfl⟩⟩
-  | some n => cases n with
-    | zero => simp at h
-    | succ n => simp only [Option.some.injEq] at h; subst h; exact ⟨rfl, rfl, Or.inr ⟨n, rfl, rfl⟩⟩
-
-theorem semok_step (f : Fifo) (op : Op) (hop : op ≠ .reclaim) (h : f.SemOk) : (f.owStep op).1.SemOk := by
-  cases op with
-  | reclaim => exact absurd rfl hop
-  | free => exact h
-  | write d =>
-    rw [owStep_write]
-    have := semok_owDrop f.W d.length f.q f.sem h
-    by_cases hok : (owDrop f.W d.length f.q f.sem).2.2 = true
-    · rw [if_pos hok]
-      intro n hn
-      simp only [List.length_append, List.length_singleton] at hn ⊢
-      cases hs : (owDrop f.W d.length f.q f.sem).2.1 with
-      | none => rw [hs] at hn; simp at hn
-      | some m =>
-        rw [hs] at hn
-        have := this m hs
-        simp only [Option.map_some, Option.some.injEq] at hn
-        omega
-    · rw [if_neg hok]
-      exact this
-  | read cap =>
-    show (f.step (.read cap)).1.SemOk
-    simp only [Fifo.step]
-    cases ht : f.tryWait with
-    | none => exact h
-    | some f1 =>
-      obtain ⟨hq, _, hs⟩ := tryWait_q f f1 ht
-      simp only
-      cases hq1 : f1.q with
-      | nil =>
-        rcases hs with ⟨h0, h1⟩ | ⟨n, h0, h1⟩
-        · simp only [h1]; intro n hn; rw [h1] at hn; simp at hn
-        · simp only [h1, Fifo.post]
-          intro m hm
-          simp only [Option.map_some, Option.some.injEq] at hm
-          have := h (n + 1) h0
-          rw [hq1]; rw [← hq, hq1] at this; omega
-      | cons c cs =>
-        simp only
-        have hlen : f.q.length = cs.length + 1 := by rw [← hq, hq1]; rfl
-        by_cases hc : cap < c.length
-        · rw [if_pos hc]
-          intro m hm
-          simp only [Fifo.post] at hm ⊢
-          rcases hs with ⟨h0, h1⟩ | ⟨n, h0, h1⟩
-          · rw [h1] at hm; simp at hm
-          · rw [h1] at hm
-            simp only [Option.map_some, Option.some.injEq] at hm
-            have := h (n + 1) h0
-            rw [hq, hlen]; omega
-        · rw [if_neg hc]
-          intro m hm
-          simp only at hm ⊢
-          rcases hs with ⟨h0, h1⟩ | ⟨n, h0, h1⟩
-          · rw [h1] at hm; simp at hm
-          · rw [h1] at hm
-            simp only [Option.some.injEq] at hm
-            have := h (n + 1) h0
-            omega
-  | peek =>
-    show (f.step .peek).1.SemOk
-    simp only [Fifo.step]
-    cases ht : f.tryWait with
-    | none => exact h
-    | some f1 =>
-      obtain ⟨hq, _, hs⟩ := tryWait_q f f1 ht
-      simp only
-      cases hq1 : f1.q with
-      | nil =>
-        simp only [Fifo.post]
-        intro m hm
-        rcases hs with ⟨h0, h1⟩ | ⟨n, h0, h1⟩
-        · rw [h1] at hm; simp at hm
-        · rw [h1] at hm
-          simp only [Option.map_some, Option.some.injEq] at hm
-          have := h (n + 1) h0
-          simp only; rw [hq1]; rw [← hq, hq1] at this; omega
-      | cons c cs =>
-        simp only
-        intro m hm
-        rcases hs with ⟨h0, h1⟩ | ⟨n, h0, h1⟩
-        · rw [h1] at hm; simp at hm
-        · rw [h1] at hm
-          simp only [Option.some.injEq] at hm
-          have := h (n + 1) h0
-          rw [hq]; omega
-
-/-- `peek` directly followed by `reclaim` keeps the count within the number of chunks -/
-theorem semok_peek_reclaim (f : Fifo) (h : f.SemOk) : ((f.owStep .peek).1.owStep .reclaim).1.SemOk := by
-  show ((f.step .peek).1.step .reclaim).1.SemOk
-  simp only [Fifo.step]
-  cases ht : f.tryWait with
-  | none =>
-    -- sem = some 0
-    simp only
-    intro m hm
-    simp only at hm
-    have : f.sem = some 0 := by
-      obtain ⟨W, q, sem⟩ := f
-      unfold Fifo.tryWait at ht
-      cases sem with
-      | none => simp at ht
-      | some n => cases n with
-        | zero => rfl
-        | succ n => simp at ht
-    rw [this] at hm
-    simp only [Option.some.injEq] at hm
-    omega
-  | some f1 =>
-    obtain ⟨hq, _, hs⟩ := tryWait_q f f1 ht
-    simp only
-    cases hq1 : f1.q with
-    | nil =>
-      simp only [Fifo.post]
-      intro m hm
-      rcases hs with ⟨h0, h1⟩ | ⟨n, h0, h1⟩
-      · rw [h1] at hm; simp at hm
-      · have := h (n + 1) h0
-        rw [← hq, hq1] at this
-        simp at this
-    | cons c cs =>
-      simp only [hq1, List.tail_cons]
-      intro m hm
-      rcases hs with ⟨h0, h1⟩ | ⟨n, h0, h1⟩
-      · rw [h1] at hm; simp at hm
-      · rw [h1] at hm
-        simp only [Option.some.injEq] at hm
-        have := h (n + 1) h0
-        rw [← hq, hq1] at this
-        simp only [List.length_cons] at this
-        simp only
-        omega
+/-! ### histories -/
 
 theorem owRun_cons (f : Fifo) (op : Op) (ops : List Op) :
     f.owRun (op :: ops) = (((f.owStep op).1.owRun ops).1, (f.owStep op).2 :: ((f.owStep op).1.owRun ops).2) := rfl
 
-/-- along every history that uses `reclaim` only directly after `peek` (the documented use)
-    the notification count stays within the number of queued chunks -/
-theorem semok_run (f : Fifo) (ops : List Op) (hd : disciplined ops = true) (h : f.SemOk) :
-    (f.owRun ops).1.SemOk := by
-  induction ops using disciplined.induct generalizing f with
-  | case1 => exact h
-  | case2 rest => simp [disciplined] at hd
-  | case3 rest ih =>
-    simp only [disciplined] at hd
-    rw [owRun_cons, owRun_cons]
-    exact ih _ hd (semok_peek_reclaim f h)
-  | case4 op rest hne1 hne2 ih =>
-    have hop : op ≠ .reclaim := hne1
-    have hd' : disciplined rest = true := by
-      cases op with
-      | reclaim => exact absurd rfl hop
-      | peek =>
-        cases rest with
-        | nil => rfl
-        | cons o os =>
-          cases o with
-          | reclaim => exact absurd rfl (hne2 os rfl)
-          | _ => simpa [disciplined] using hd
-      | _ => simpa [disciplined] using hd
-    rw [owRun_cons]
-    exact ih _ hd' (semok_step f op hop h)
+theorem tryWait_q (f f1 : Fifo) (h : f.tryWait = some f1) : f1.q = f.q ∧ f1.W = f.W := by
+  obtain ⟨W, q, sem⟩ := f
+  unfold Fifo.tryWait at h
+  cases sem with
+  | none => simp only [Option.some.injEq] at h; subst h; exact ⟨rfl, rfl⟩
+  | some n => cases n with
+    | zero => simp at h
+    | succ n => simp only [Option.some.injEq] at h; subst h; exact ⟨rfl, rfl⟩
 
 theorem owStep_W (f : Fifo) (op : Op) : (f.owStep op).1.W = f.W := by
   cases op with
@@ -421,7 +239,7 @@ theorem owStep_W (f : Fifo) (op : Op) : (f.owStep op).1.W = f.W := by
     cases ht : f.tryWait with
     | none => rfl
     | some f1 =>
-      obtain ⟨_, hW, _⟩ := tryWait_q f f1 ht
+      obtain ⟨_, hW⟩ := tryWait_q f f1 ht
       simp only
       cases f1.q with
       | nil => cases f1.sem <;> simp [Fifo.post, hW]
@@ -432,7 +250,7 @@ theorem owStep_W (f : Fifo) (op : Op) : (f.owStep op).1.W = f.W := by
     cases ht : f.tryWait with
     | none => rfl
     | some f1 =>
-      obtain ⟨_, hW, _⟩ := tryWait_q f f1 ht
+      obtain ⟨_, hW⟩ := tryWait_q f f1 ht
       simp only
       cases f1.q <;> simp [Fifo.post, hW]
 
@@ -442,31 +260,27 @@ theorem owRun_W (f : Fifo) (ops : List Op) : (f.owRun ops).1.W = f.W := by
   | cons op ops ih => rw [owRun_cons]; simp only; rw [ih, owStep_W]
 
 /-- **Every write of at most the requested size succeeds — on the ring, in every reachable
-    state.**  For a ring created by `qb_rb_open(S, QB_RB_FLAG_OVERWRITE)` (with or without the
-    semaphore) and every history that uses `reclaim` only directly after `peek`, a write of at
-    most `S` bytes issued next returns its length. -/
+    state.**  For a ring created by `qb_rb_open(S, QB_RB_FLAG_OVERWRITE)`, with or without the
+    semaphore, and EVERY history of writes, reads, peeks, reclaims (also failed and oversize
+    ones), a write of at most `S` bytes issued next returns its length. -/
 theorem ow_write_succeeds_ring (S page : Nat) (useSem : Bool) (hp : 0 < page) (h4 : page % 4 = 0)
-    (hbig : roundUp (S + MARGIN + 1) page < 2^31) (ops : List Op) (hdisc : disciplined ops = true)
+    (hbig : roundUp (S + MARGIN + 1) page < 2^31) (ops : List Op)
     (d : List Nat) (hd : d.length ≤ S) :
     (((Rb.open S page true useSem).run ops).1.step (.write d)).2 = .wrote d.length := by
   obtain ⟨q, TR, hi, how, he⟩ := run_sim_ow' (open_inv S page true useSem hp h4 hbig) rfl ops
-  have hinit : absF (Rb.open S page true useSem) [] = Fifo.init (Rb.open S page true useSem).W useSem := rfl
   obtain ⟨q', TR', _, _, hstep⟩ := step_write_ow hi how d
   have hf : absF ((Rb.open S page true useSem).run ops).1 q = ((absF (Rb.open S page true useSem) []).owRun ops).1 := by
     rw [he]
-  have hsem : (absF ((Rb.open S page true useSem).run ops).1 q).SemOk := by
-    rw [hf]
-    apply semok_run _ _ hdisc
-    intro n hn
-    rw [hinit] at hn
-    cases useSem <;> simp [Fifo.init] at hn
-    omega
   have hW : (absF ((Rb.open S page true useSem).run ops).1 q).W = (Rb.open S page true useSem).W := by
     rw [hf, owRun_W]; rfl
   have hcap := C07.open_capacity S page true useSem hp h4
-  have := ow_write_succeeds _ S d (by rw [hW]; exact hcap) hsem hd
+  have := ow_write_succeeds _ S d (by rw [hW]; exact hcap) hd
   rw [hstep] at this
   exact this
+
+example : (((Rb.open 19 16 true true).run [.write [1], .write (List.replicate 30 0), .reclaim, .read 9]).1.step
+    (.write (List.replicate 19 7))).2 = .wrote 19 :=
+  ow_write_succeeds_ring 19 16 true (by decide) (by decide) (by decide) _ _ (by decide)
 
 /-! ### the contents are always the newest chunks written -/
 
@@ -479,9 +293,9 @@ theorem owStep_suffix (f : Fifo) (op : Op) :
     (f.owStep op).1.q <:+ f.q ++ (match op, (f.owStep op).2 with | .write d, .wrote _ => [d] | _, _ => []) := by
   cases op with
   | write d =>
-    obtain ⟨k, hk, h1, _⟩ := owDrop_spec f.W d.length f.q f.sem
+    obtain ⟨k, hk, h1, _⟩ := owDrop_spec f.W d.length f.q
     rw [owStep_write]
-    by_cases hok : (owDrop f.W d.length f.q f.sem).2.2 = true
+    by_cases hok : (owDrop f.W d.length f.q).2 = true
     · rw [if_pos hok]
       simp only [h1]
       exact ⟨f.q.take k, by rw [← List.append_assoc, List.take_append_drop]⟩
@@ -523,12 +337,6 @@ theorem ow_contents_newest (f : Fifo) (ops : List Op) :
     refine ⟨t ++ u, ?_⟩
     rw [List.append_assoc, hu, ← List.append_assoc, ht, List.append_assoc]
 
-/-- after a successful write the newest chunk is the last one readable (so `k ≥ 1`) -/
-theorem ow_last_is_newest (f : Fifo) (d : List Nat) (h : (f.owStep (.write d)).2 = .wrote d.length) :
-    (f.owStep (.write d)).1.q.getLast? = some d := by
-  obtain ⟨k, _, hq, _⟩ := ow_contents_suffix f d h
-  rw [hq]; simp
-
 /-- **On the ring:** after any history on a ring opened with the overwrite flag, the chunks
     still stored (the ghost queue of the layout invariant — what `qb_rb_chunk_read` will return,
     in this order, by `ow_history`) are a suffix of the payloads of the successful writes, both
@@ -542,85 +350,5 @@ theorem ow_ring_contents_newest (S page : Nat) (useSem : Bool) (hp : 0 < page) (
   have := ow_contents_newest (absF (Rb.open S page true useSem) []) ops
   rw [he] at this
   simpa [absF] using this
-
-/-- draining: on a ring without semaphore (or whose count equals the number of chunks) reading
-    `|q|` times with a large enough buffer returns the queue, oldest first, and empties it -/
-theorem drain_reads_queue (W : Nat) (q : List (List Nat)) (sem : Option Nat) (cap : Nat)
-    (hs : sem = none ∨ sem = some q.length) (hcap : ∀ c ∈ q, c.length ≤ cap) :
-    (Fifo.owRun ⟨W, q, sem⟩ (List.replicate q.length (.read cap))).2 = q.map .data ∧
-    (Fifo.owRun ⟨W, q, sem⟩ (List.replicate q.length (.read cap))).1.q = [] := by
-  induction q generalizing sem with
-  | nil => exact ⟨rfl, rfl⟩
-  | cons c cs ih =>
-    have hc : ¬ cap < c.length := by have := hcap c List.mem_cons_self; omega
-    have hstep : Fifo.owStep ⟨W, c :: cs, sem⟩ (.read cap)
-        = (⟨W, cs, if sem = none then none else some cs.length⟩, .data c) := by
-      show Fifo.step ⟨W, c :: cs, sem⟩ (.read cap) = _
-      rcases hs with rfl | rfl
-      · simp [Fifo.step, Fifo.tryWait, hc]
-      · simp [Fifo.step, Fifo.tryWait, hc]
-    simp only [List.length_cons, List.replicate_succ, owRun_cons, hstep, List.map_cons]
-    have := ih (sem := if sem = none then none else some cs.length)
-      (by rcases hs with rfl | rfl <;> simp) (fun c hc => hcap c (List.mem_cons_of_mem _ hc))
-    exact ⟨by rw [this.1], this.2⟩
-
-example : (Fifo.owRun ⟨8, [[1], [2,2]], none⟩ (List.replicate 2 (.read 9))).2 = [.data [1], .data [2,2]] :=
-  (drain_reads_queue 8 [[1], [2,2]] none 9 (Or.inl rfl) (by decide)).1
-
-/-! ### two-phase writes in overwrite mode (the blackbox logger's pattern) -/
-
-/-- **Refinement with separate `alloc` / `commit` operations, overwrite mode.**  As
-    `C07.fifo_history_alloc_commit`, for a ring opened with QB_RB_FLAG_OVERWRITE: `alloc n` runs
-    the drop loop for the *allocated* length `n` (the blackbox reserves header + maximum line
-    length), `commit data` appends the `data.length ≤ n` bytes actually used. -/
-theorem ow_history_alloc_commit (S page : Nat) (useSem : Bool) (hp : 0 < page) (h4 : page % 4 = 0)
-    (hbig : roundUp (S + MARGIN + 1) page < 2^31) (ops : List POp) :
-    ((RbP.mk (Rb.open S page true useSem) none).run ops).2
-      = ((FifoP.mk (Fifo.init (Rb.open S page true useSem).W useSem) none).run true ops).2 := by
-  have hP : PInv (RbP.mk (Rb.open S page true useSem) none) [] 0 :=
-    ⟨open_inv S page true useSem hp h4 hbig, by intro n hn; simp at hn⟩
-  exact prun_sim hP ops
-
-example :
-    ((RbP.mk (Rb.open 19 16 true true) none).run
-      [.alloc 16, .commit [1,1,1,1,1], .alloc 16, .commit [2], .alloc 16, .base (.read 100), .commit [3,3],
-       .base (.read 100), .base (.read 100), .base (.read 100)]).2
-    = [some .unit, some (.num 0), some .unit, some (.num 0), some .unit, some (.err .etimedout), some (.num 0),
-       some (.data [3,3]), some (.err .etimedout), some (.err .etimedout)] := by decide +kernel
-
-/-- an allocation of at most the requested size always succeeds in overwrite mode (it may drop
-    old chunks); `SemOk` as in `ow_write_succeeds` -/
-theorem ow_alloc_succeeds (f : Fifo) (S n : Nat) (hS : S + MARGIN + 1 ≤ 4 * f.W) (hsem : f.SemOk) (hn : n ≤ S) :
-    ∃ q' sem', FifoP.step true ⟨f, none⟩ (.alloc n) = some (⟨⟨f.W, q', sem'⟩, some n⟩, .unit) := by
-  have hok := owDrop_true f.W S n f.q f.sem hS hn hsem
-  simp only [FifoP.step]
-  revert hok
-  rcases owDrop f.W n f.q f.sem with ⟨q', sem', ok⟩
-  intro hok
-  cases ok with
-  | false => simp at hok
-  | true => exact ⟨q', sem', by simp⟩
-
-/-! ### defect D31: the code before the repair (model-level refutation witness) -/
-
-/-- Two 16-byte writes into a 32-byte overwrite ring *with* semaphore (`open 19`, page 16), then
-    a 1-byte write; results of the second and third write.  `takeBack = false` is
-    `qb_rb_chunk_alloc` before the repair (the notification of a dropped chunk stays counted). -/
-def d31History (takeBack : Bool) : Out × Out :=
-  let r0 := Rb.open 19 16 true true
-  let r1 := (r0.writeGen true takeBack (List.replicate 16 1)).1
-  let w2 := r1.writeGen true takeBack (List.replicate 16 2)
-  let w3 := w2.1.writeGen true takeBack [3]
-  let out : Except Err Nat → Out := fun | .ok n => .wrote n | .error e => .err e
-  (out w2.2, out w3.2)
-
-/-- **Model-level witness of defect D31.**  Before the repair, an overwriting write that has
-    to drop the last remaining chunk fails with EINVAL (the emptied ring is taken for full
-    because the dropped chunk's notification is still counted), the old contents are gone, and
-    every later write fails too; with the repair both writes succeed (`ow_write_succeeds`).
-    The same history against the real code: `corpus/C11/d31-sem-overcount.ops`. -/
-theorem ow_sem_overcount_witness :
-    d31History false = (.err .einval, .err .einval) ∧ d31History true = (.wrote 16, .wrote 1) := by
-  decide +kernel
 
 end QbVerif.Props.C11
